@@ -69,7 +69,10 @@ def main():
                         base = G.int_net(rnd, dim, base_n + 1, 32)
                         # make sure the base is genuinely of its degree: perturb the last node
                         base = [[x + Fr(rnd.randint(1, 9), 1) * (j == len(r) - 1) * (j % 2 + 1) for j, x in enumerate(r)] for r in base]
-                        add("full-reduce", "full_reduce", base, {"k": k, "dist_exp": dist_exp})
+                        # the decision is relative: it must not depend on the overall scale of the net
+                        sc = Fr(2) ** rnd.choice([0, 0, -12, -20, 12, 30])
+                        base = [[x * sc for x in r] for r in base]
+                        add("full-reduce", "full_reduce", base, {"k": k, "dist_exp": dist_exp, "scale": str(sc)})
 
     # ------------------------------------------------------------------ model queries
     drv = C.Driver()
